@@ -4,8 +4,10 @@
 EXTENDS Naturals, Sequences, TLC, Json, IOUtils
 
 Rec == ndJsonDeserialize(IOEnv.TRACE)              \* one record per recorded event
-DevSeq == JsonDeserialize(IOEnv.DEVS)              \* JSON array of open finding names
-TraceDevs == {DevSeq[i] : i \in DOMAIN DevSeq}
+RunCfg == JsonDeserialize(IOEnv.DEVS)              \* {"devs": [open finding names], "props": [property ids to enforce]}
+TraceDevs == {RunCfg.devs[i] : i \in DOMAIN RunCfg.devs}
+TraceProps == {RunCfg.props[i] : i \in DOMAIN RunCfg.props}
+Enforce(p) == p \in TraceProps
 StopAt == atoi(IOEnv.STOPAT)                       \* 0 = off
 
 ASSUME TLCSet(1, 0)
